@@ -38,7 +38,7 @@ def _fixkey(key):
 class SymArray(_np.ndarray):
     def astype(self, dtype, *a, **k):
         if self.dtype == object:
-            if dtype in (float, _np.float64, "float", "float64"):
+            if dtype in (float, _np.float64, "float", "float64", _np.float32, "float32"):  # reals: no rounding (stated assumption)
                 return self.copy()
             if dtype in (bool, _np.bool_, "bool"):
                 return _concretize_mask(self)
@@ -82,9 +82,19 @@ class SymArray(_np.ndarray):
         return NP_INSTANCE.all(self, axis=axis)
 
 
+class KeyArray(_np.ndarray):
+    """concrete array that may be indexed with a symbolic mask (the mask is decided element by element); used by stubs that hand
+    concrete index arrays to the code under test"""
+
+    def __getitem__(self, key):
+        return super().__getitem__(_fixkey(key))
+
+
 def wrap(a):
     if isinstance(a, _np.ndarray) and a.dtype == object and not isinstance(a, SymArray):
         return a.view(SymArray)
+    if type(a) is _np.ndarray and a.dtype.kind == "i" and a.ndim:
+        return a.view(KeyArray)  # index arrays built by the code under test may later be filtered by a symbolic mask
     if isinstance(a, tuple):
         return tuple(wrap(x) for x in a)
     if isinstance(a, list):
